@@ -427,6 +427,83 @@ def oracle_single(ck: core.Check) -> dict:
     return stats
 
 
+def corr_inlinearg(ck: core.Check, drv) -> None:
+    """`inlineArgAccepted` (model) vs. the real `inline(m)(a)`: does the call raise TypeError for an
+    argument of type `arg` against a declared input type `decl`? (public API only)"""
+    import spox.opset.ai.onnx.v17 as op
+    from spox import argument, build, inline
+
+    tys = [{"e": e, "s": s} for e in ("f32", "i64") for s in ([], [3], [5], [0], ["N"], [None], [2, 3], ["N", 3], [2, None], [None, None])]
+    tys += [{"e": "f32", "s": None}]
+    pairs = [(a, d) for a in tys for d in tys if d["s"] is not None]
+    model = drv.ask_many("C06", [{"k": "inlinearg", "arg": a,
+                                  "decl": {"e": d["e"], "s": [x if isinstance(x, int) else None for x in d["s"]]}} for a, d in pairs])
+    mism = 0
+    models: dict = {}
+    for (a, d), mo in zip(pairs, model):
+        key = json.dumps(d)
+        with warnings.catch_warnings():
+            warnings.simplefilter("ignore")
+            if key not in models:
+                p_ = argument(L.ty_from_json(d))
+                models[key] = build({"x": p_}, {"y": op.identity(p_)})
+            try:
+                v = L.mk_var(a)
+                for form in (lambda f: f(v), lambda f: f(x=v)):
+                    form(inline(models[key]))
+                real = True
+            except TypeError:
+                real = False
+        ck.count(("inlinearg", json.dumps(a), key))
+        if mo.get("accepted") != real:
+            mism += 1
+            if mism <= 3:
+                ck.broken("correspondence", "inlineArgAccepted model-vs-inline", f"arg={a} decl={d} model={mo} real accepted={real}")
+    ck.cov["inlinearg_correspondence"] = {"cases": len(pairs), "mismatches": mism}
+
+
+def oracle_inline_forms(ck: core.Check) -> dict:
+    """`inline(m)(…)` called positionally / by keyword / mixed, with exact, compatible-but-weaker and
+    incompatible argument types. Incompatible ones must be refused (TypeError) at the call; whenever
+    a call returns, every result is run and judged."""
+    stats = {"programs": 0, "refused_at_call": 0, "returned": 0, "returned_with_incompatible_argument": 0, "runs": 0, "vars_checked": 0}
+    for ic in P.INLINE_CASES:
+        case = dict(ic, kind="inline-form")
+        st = P.run_inline_case(case, ck.rng, SIZES, max_inst=ck.pick(3, 6))
+        stats["programs"] += 1
+        if st.get("rejected"):
+            stats["refused_at_call"] += 1
+            continue
+        stats["returned"] += 1
+        stats["returned_with_incompatible_argument"] += int(not st.get("compatible", True))
+        stats["runs"] += st["runs"]
+        stats["vars_checked"] += st["checked"]
+        ck.count(("inline-form", json.dumps(ic)) if st["checked"] else None)
+        report(ck, st["fails"], case)
+    return stats
+
+
+def oracle_attr_functions(ck: core.Check) -> dict:
+    """`Function` subclasses whose attribute is referenced by a type-relevant operator attribute,
+    applied 2-3 times in a row with different attribute values."""
+    stats = {"programs": 0, "rejected": 0, "runs": 0, "vars_checked": 0, "errors": []}
+    for fc in P.ATTRFUN_CASES:
+        case = dict(fc, kind="attr-function")
+        st = P.run_attr_function(case, ck.rng, SIZES, max_inst=ck.pick(3, 6))
+        stats["programs"] += 1
+        if st.get("rejected"):
+            stats["rejected"] += 1
+            stats["errors"].append(st.get("error", "")[:120])
+            continue
+        stats["runs"] += st["runs"]
+        stats["vars_checked"] += st["checked"]
+        ck.count(("attr-function", json.dumps(fc)) if st["checked"] else None)
+        report(ck, st["fails"], case)
+    if stats["vars_checked"] == 0:
+        ck.broken("correspondence", "attribute-carrying Function subclasses not observable", str(stats["errors"][:2]))
+    return stats
+
+
 def oracle_function_conflicts(ck: core.Check) -> dict:
     """Programs in which one function key gets two different bodies (rank / dtype dependent helper
     called at two types in both orders; two helpers under one name). Expected: spox refuses to build
@@ -539,11 +616,14 @@ def run(ck: core.Check):
         ck.log("runtime-spec correspondence done")
         _facet(ck, "conforms/strip correspondence", corr_conf, ck, drv)
         _facet(ck, "non-tensor inputs correspondence", corr_nontensor, ck, drv)
+        _facet(ck, "inline argument acceptance correspondence", corr_inlinearg, ck, drv)
 
     # the model-free oracle runs whatever happened above
     ck.cov["oracle_single"] = _facet(ck, "single-operator oracle", oracle_single, ck)
     ck.log("single-operator oracle done")
     ck.cov["oracle_scan"] = _facet(ck, "Scan oracle", oracle_scan, ck)
+    ck.cov["oracle_inline_forms"] = _facet(ck, "inline call-form oracle", oracle_inline_forms, ck)
+    ck.cov["oracle_attr_functions"] = _facet(ck, "attribute-function oracle", oracle_attr_functions, ck)
     ck.cov["oracle_function_conflicts"] = _facet(ck, "function-conflict oracle", oracle_function_conflicts, ck)
     ck.cov["oracle_programs"] = _facet(ck, "program oracle", oracle_programs, ck)
     ck.log("program oracle done")
@@ -582,6 +662,10 @@ def replay(ck: core.Check, doc) -> bool:
         st = P.run_single(case, rng, SIZES, max_inst=8, extra_feeds=extra)
     elif case.get("kind") == "program":
         st = P.run_program(case, SIZES, max_inst=6, extra_feeds=extra)
+    elif case.get("kind") == "inline-form":
+        st = P.run_inline_case(case, rng, SIZES, max_inst=6, extra_feeds=extra)
+    elif case.get("kind") == "attr-function":
+        st = P.run_attr_function(case, rng, SIZES, max_inst=6, extra_feeds=extra)
     elif case.get("kind") == "function-conflict":
         st = P.run_function_conflict(case, rng, SIZES, max_inst=6, extra_feeds=extra)
     elif case.get("kind") == "scan":
